@@ -10,38 +10,58 @@ Model: cls -> instance label | none.
 """
 
 import collections
+import itertools
 
 import egsim  # noqa: F401
 from egsim import engine, gen
 from egsim.props.c17 import ARG_POOL, decode_arg
 from edgegraph.structure import singleton
 
-CLASS_NAMES = ["T", "T1", "T2", "S"]
+CLASS_NAMES = ["T", "T1", "T2", "S", "F", "Z"]
 
 
-def make_classes():
-    def body(name):
+def make_classes(hook=None):
+    tokens = itertools.count(1)
+    hook = hook if hook is not None else {"fn": None}
+
+    def body(name, **extra):
         def __init__(self, *args, **kwargs):
             self.init_count = getattr(self, "init_count", 0) + 1
             self.init_args = (args, dict(kwargs))
+            # one fresh token per run of __init__: lets the harness recognise
+            # an instance without holding a reference to it
+            self.token = next(tokens)
+            fn = hook["fn"]
+            if fn is not None:
+                hook["fn"] = None  # one shot: user code in the middle of a construction
+                fn(self)
 
-        return {"__init__": __init__, "__qualname__": name}
+        d = {"__init__": __init__, "__qualname__": name}
+        d.update(extra)
+        return d
 
     M = singleton.TrueSingleton
     T = M("T", (object,), body("T"))
     T1 = M("T1", (T,), body("T1"))
     T2 = M("T2", (T1,), body("T2"))
     S = M("S", (object,), body("S"))
-    return {"T": T, "T1": T1, "T2": T2, "S": S}
+    # instances with their own truth value (an empty registry-like singleton)
+    F = M("F", (object,), body("F", __bool__=lambda self: False))
+    Z = M("Z", (object,), body("Z", __len__=lambda self: 0))
+    return {"T": T, "T1": T1, "T2": T2, "S": S, "F": F, "Z": Z}
 
 
 class St:
     def __init__(self, cfg):
         self.cfg = cfg
         singleton.clear_true_singleton()
-        self.classes = make_classes()
-        self.inst = {}
-        self.label = {}
+        self.hook = {"fn": None}
+        self.classes = make_classes(self.hook)
+        self.inst = {}  # label -> object (None when the run holds no references)
+        self.label = {}  # id(obj) -> label (only when references are held)
+        self.token = {}  # label -> token
+        self.tok2lab = {}
+        self.hold = bool(cfg.get("hold_refs", True))
         self.first_args = {}
         self.model = {c: None for c in CLASS_NAMES}
         self.namer = gen.Namer()
@@ -52,7 +72,16 @@ class St:
     def lab(self, obj):
         if obj is None:
             return None
-        return self.label.get(id(obj), f"?{type(obj).__name__}")
+        tok = getattr(obj, "token", None)
+        return self.tok2lab.get(tok, f"?{type(obj).__name__}")
+
+    def same(self, obj, lab):
+        """Is obj the instance the model calls `lab`?"""
+        if getattr(obj, "token", None) != self.token[lab]:
+            return False
+        if self.hold and obj is not self.inst[lab]:
+            return False
+        return True
 
 
 class C18(engine.Property):
@@ -83,6 +112,11 @@ class C18(engine.Property):
         "targeted-clear-with-others-live",
         "subclass-constructed-while-parent-live",
         "parent-constructed-while-subclass-live",
+        "falsy-instance-constructed-while-live",
+        "no-reference-held-construct-while-live",
+        "user-code-during-construction:clear",
+        "user-code-during-construction:clear_all",
+        "user-code-during-construction:construct",
     ]
 
     def make_config(self, rng):
@@ -93,6 +127,9 @@ class C18(engine.Property):
             "p_clear": rng.choice([0.1, 0.25, 0.4]),
             "p_clear_all": rng.choice([0.0, 0.05, 0.15]),
             "p_kwargs": rng.choice([0.0, 0.3]),
+            # does the caller keep the objects it was given?
+            "hold_refs": rng.random() < 0.6,
+            "p_during": rng.choice([0.0, 0.0, 0.1, 0.3]),
         }
 
     def start(self, cfg):
@@ -108,13 +145,23 @@ class C18(engine.Property):
         kwargs = []
         if rng.random() < cfg["p_kwargs"]:
             kwargs = [[rng.choice(["x", "y"]), rng.choice(ARG_POOL)]]
-        return {
+        op = {
             "op": "construct",
             "cls": rng.choice(cfg["classes"]),
             "args": args,
             "kwargs": kwargs,
             "new": st.namer.new("i"),
         }
+        if rng.random() < cfg.get("p_during", 0.0):
+            r = rng.random()
+            other = rng.choice(cfg["classes"])
+            if r < 0.35:
+                op["during"] = {"op": "clear", "cls": rng.choice([op["cls"], other])}
+            elif r < 0.55:
+                op["during"] = {"op": "clear_all"}
+            elif other != op["cls"]:
+                op["during"] = {"op": "construct", "cls": other, "args": [], "kwargs": [], "new": st.namer.new("i")}
+        return op
 
     def execute(self, st, op):
         k = op["op"]
@@ -132,21 +179,31 @@ class C18(engine.Property):
             live = st.model[cls]
             if live is not None:
                 s["probe:construct-while-live"] += 1
+                if cls in ("F", "Z"):
+                    s["probe:falsy-instance-constructed-while-live"] += 1
+                if not st.hold:
+                    s["probe:no-reference-held-construct-while-live"] += 1
             elif cls in st.cleared_once:
                 s["probe:construct-after-clear"] += 1
             if cls in ("T1", "T2") and st.model["T"] is not None:
                 s["probe:subclass-constructed-while-parent-live"] += 1
             if cls == "T" and (st.model["T1"] or st.model["T2"]):
                 s["probe:parent-constructed-while-subclass-live"] += 1
+            during = op.get("during")
+            if during is not None and live is None and during.get("cls", cls) in st.classes:
+                s["probe:user-code-during-construction:" + during["op"]] += 1
+                s["fault:reentrant-call-during-init"] += 1
+                st.hook["fn"] = lambda _self, d=during: self._nested(st, d)
             try:
                 obj = klass(*args, **kwargs)
             except Exception as exc:  # pylint: disable=broad-except
+                st.hook["fn"] = None
                 return {"exc": type(exc).__name__}, engine.viol(
                     "C18/construction-raised", {"op": op, "exc": type(exc).__name__}
                 )
             if live is not None:
                 out = {"ret": st.lab(obj)}
-                if obj is not st.inst[live]:
+                if not st.same(obj, live):
                     v = engine.viol(
                         "C18/second-live-instance-between-clears",
                         {"op": op, "expected": live, "got": st.lab(obj)},
@@ -160,8 +217,8 @@ class C18(engine.Property):
                         "C18/init-arguments-not-first-call's", {"op": op}
                     )
             else:
-                known = st.label.get(id(obj))
-                if known is not None and st.inst.get(known) is obj:
+                known = st.tok2lab.get(getattr(obj, "token", None))
+                if known is not None:
                     out = {"ret": known}
                     v = engine.viol(
                         "C18/construct-after-clear-returned-old-instance",
@@ -169,8 +226,9 @@ class C18(engine.Property):
                     )
                 else:
                     lab = op["new"]
-                    st.inst[lab] = obj
-                    st.label[id(obj)] = lab
+                    st.inst[lab] = obj if st.hold else None
+                    st.token[lab] = getattr(obj, "token", None)
+                    st.tok2lab[st.token[lab]] = lab
                     st.model[cls] = lab
                     st.first_args[lab] = (args, dict(kwargs))
                     st.mutations += 1
@@ -219,6 +277,31 @@ class C18(engine.Property):
             v = self._recheck(st, op)
         return out, v
 
+    def _nested(self, st, d):
+        """Runs inside an __init__, before the instance being built is registered."""
+        if d["op"] == "clear":
+            singleton.clear_true_singleton(st.classes[d["cls"]])
+            if st.model[d["cls"]] is not None:
+                st.cleared_once.add(d["cls"])
+            st.model[d["cls"]] = None
+            return
+        if d["op"] == "clear_all":
+            singleton.clear_true_singleton()
+            for c in CLASS_NAMES:
+                if st.model[c] is not None:
+                    st.cleared_once.add(c)
+                st.model[c] = None
+            return
+        live = st.model[d["cls"]]
+        obj = st.classes[d["cls"]]()
+        if live is None and d["new"] not in st.token:
+            lab = d["new"]
+            st.inst[lab] = obj if st.hold else None
+            st.token[lab] = getattr(obj, "token", None)
+            st.tok2lab[st.token[lab]] = lab
+            st.model[d["cls"]] = lab
+            st.first_args[lab] = ((), {})
+
     def _recheck(self, st, op):
         """
         Every class the model says is live must still answer with its
@@ -235,7 +318,7 @@ class C18(engine.Property):
                 return engine.viol(
                     "C18/construction-raised", {"class": c, "exc": type(exc).__name__}
                 )
-            if obj is not st.inst[lab] or obj.init_count != 1:
+            if not st.same(obj, lab) or obj.init_count != 1 or obj.init_args != st.first_args[lab]:
                 got = st.lab(obj)
                 # keep the world consistent with what was observed
                 return engine.viol(
